@@ -164,6 +164,15 @@ def remEuclidStd (x m : UInt32) : UInt32 :=
   let r := rem x m
   if lt r 0 then add r (fabs m) else r
 
+/-- angle.rs `Angle::wrap` on bit patterns (after fix ff0ac1e), with the `rem_euclid` of std / the fallback / libm:
+`let w = min + rem_euclid(self - min, max - min); if min < max && w > max { max } else { w }`. -/
+def wrapStd (a lo hi : UInt32) : UInt32 :=
+  let w := add lo (remEuclidStd (sub a lo) (sub hi lo))
+  if lt lo hi && lt hi w then hi else w
+
+/-- the same before fix ff0ac1e (no cap); kept to state the repaired defect (`Props.C18.wrap_old_above_max`) -/
+def wrapStdOld (a lo hi : UInt32) : UInt32 := add lo (remEuclidStd (sub a lo) (sub hi lo))
+
 /-- `b as u32 as f32` for a `bool`. -/
 def boolToF32 (c : Bool) : UInt32 := if c then one else 0
 
